@@ -179,7 +179,7 @@ int main(int argc, char** argv) {
 				for (int r = 0; r < 8; ++r) { uint32_t imm = imms[ii] ^ (uint32_t)(r * 0x01010101u); X86Branch xb;
 					if (!decode_x86_cbranch(jc, r, jc->instructionOffsets[r + 1], xb)) { R.n["jit_branch_encodings_not_recognised"]++; continue; }   // unknown (possibly correct) encoding: not an alarm; behaviour is C04's business
 					R.n["jit_premise_cases"]++;
-					if (xb.reg != r || !premise_ok((uint64_t)xb.add_imm, xb.test_mask, b, imm)) viol("c07:jit-premise", "x86 emitter: CBRANCH constant/mask for imm32=" + vf::hex64(imm) + ", b=" + std::to_string(b) + " violate the premises", vf::Json::obj().set("kind", "m2").set("b", b).set("imm32", (unsigned long long)imm)); }
+					if (xb.reg != r || !premise_ok((uint64_t)xb.add_imm, xb.test_mask, b, imm)) viol("c07:jit-premise", "x86 emitter: CBRANCH constant/mask for imm32=" + vf::hex64(imm) + ", b=" + std::to_string(b) + " violate the premises", vf::Json::obj().set("kind", "m2jit").set("b", b).set("imm32", (unsigned long long)imm).set("reg", r)); }
 			}
 		}
 		if (shard == 0) R.sample(vf::Json::obj().set("kind", "m2").set("b", 8).set("imm32", "0xffffffff").set("expect", "cimm = 0xffffffffffffff7f | 0x100, mask 0xff00"), 1);
@@ -188,6 +188,12 @@ int main(int argc, char** argv) {
 	if (!args.replay.empty()) {
 		vf::Json r = vf::Json::load(args.replay); std::string d; std::string k = r.at("kind").s;
 		if (k == "m1") m1_case((int)r.at("b").num(), (unsigned)r.at("dw").num(), (unsigned)r.at("cf").num(), 0, (uint64_t)r.at("lowd").num(), (uint64_t)r.at("lowc").num(), d);
+		else if (k == "m2jit") {   // regenerate the x86 code for this (register, shift, immediate) and check the emitted constant and mask
+			int b = (int)r.at("b").num(), reg = (int)r.at("reg").num(); uint32_t imm = (uint32_t)r.at("imm32").num();
+			auto E = make_engine(RANDOMX_FLAG_JIT, cache, nullptr); auto* jc = jit_of(*E); ProgBuf p; p.fill_noop(); set_config_block(p, 0); p.set_word(0, W(opCB, reg, 0, (b - JO) << 4, imm));
+			randomx::Program prog; memcpy(&prog, p.b, ProgBytes); randomx::ProgramConfiguration pcf{}; jc->generateProgramLight(prog, pcf, 0);
+			X86Branch xb; if (decode_x86_cbranch(jc, 0, jc->instructionOffsets[1], xb) && (xb.reg != reg || !premise_ok((uint64_t)xb.add_imm, xb.test_mask, b, imm))) d = "x86 emitter: CBRANCH constant/mask violate the premises";
+		}
 		else if (k == "m2") { Interp I; I.begin(); int b = (int)r.at("b").num(); uint32_t imm = (uint32_t)r.at("imm32").num(); I.decode(W(opCB, 3, 0, (b - JO) << 4, imm)); if (!premise_ok(I.bc.imm, I.bc.memMask, b, imm)) d = "premise violated"; }
 		else { vf::Result rr = shard_fn(k == "model" ? nsh : nsh + 1); if (!rr.viol.empty()) d = rr.viol[0].what; }   // structural / model cases: re-run that part in this process
 		printf("replay: %s\n", d.empty() ? "holds" : d.c_str()); return d.empty() ? 0 : 1;
